@@ -681,3 +681,260 @@ Section Compose.
       intros f a. symmetry. apply C3.
   Qed.
 End Compose.
+
+(* ================================================================================================================ *)
+(* Composition, instantaneous actions mixed with end-effect-only durative actions ([end_only_fragment])              *)
+(* ================================================================================================================ *)
+Lemma lookupN_app_l {A} k (a b : list (N * A)) v : lookupN k a = Some v -> lookupN k (a ++ b) = Some v.
+Proof.
+  induction a as [|[k' v'] a IH]; cbn; [discriminate|]. destruct (k =? k')%N; [intros H; exact H | exact IH].
+Qed.
+
+Lemma lookupN_app_r {A} k (a b : list (N * A)) : lookupN k a = None -> lookupN k (a ++ b) = lookupN k b.
+Proof.
+  induction a as [|[k' v'] a IH]; cbn; [reflexivity|]. destruct (k =? k')%N; [discriminate | exact IH].
+Qed.
+
+(* any action: the sequential step in s_s = its single event applied alone in s_t (= s_s extensionally) *)
+Lemma gen_step sc P P' (SB : same_base P P') a args (s_s s_t s_s' : state) (x : src) t :
+  state_eq s_t s_s -> spec_step sc P' s_s a args = Some s_s' ->
+  all_hold sc (mk_interp P s_t (zip_params (a_params a) args)) (a_pre a) = true /\
+  exists s_t', ref_apply sc P s_t [ {| ev_time := t; ev_src := x; ev_bind := zip_params (a_params a) args;
+                                       ev_effs := a_effs a |} ] = Some s_t' /\ state_eq s_t' s_s'.
+Proof.
+  intros SE SP. apply spec_step_inv in SP. destruct SP as [A [acts [F [E ->]]]].
+  assert (SE' : state_eq s_s s_t) by (intros f b; symmetry; apply SE).
+  pose proof (mk_interp_base P P' s_s s_t (zip_params (a_params a) args) SB SE') as IE.
+  split; [rewrite <- (all_hold_ext sc _ _ (a_pre a) IE); exact A|].
+  rewrite (fired_ext sc _ _ _ IE) in F.
+  assert (E' : spec_effects_ok P s_t acts = true).
+  { unfold spec_effects_ok in *. rewrite forallb_forall in *. intros b Hb.
+    rewrite <- (spec_fluent_base P P' s_s s_t acts (ae_key b) SB SE'). exact (E b Hb). }
+  destruct (ref_apply_single sc P s_t x _ (a_effs a) acts t F E') as [s1 [R1 R2]]. exists s1. split; [exact R1|].
+  intros f b. rewrite (R2 f b). unfold spec_succ.
+  rewrite (spec_fluent_base P P' s_s s_t acts (f, b) SB SE'). rewrite (SE f b). reflexivity.
+Qed.
+
+Section ComposeMixed.
+  Variable sc : bool.
+  Variable smp : expr -> expr.
+  Hypothesis OK : forall e I, eval sc (smp e) I = eval sc e I.
+  Variable TP : tproblem.
+  Let P := tp_base TP.
+  Variable P' : problem.
+  Variable eps : Qc.
+  Hypothesis FR : end_only_fragment smp TP = true.
+  Hypothesis CP : t2s_problem smp TP = Some P'.
+  Hypothesis He : zq 0 < eps.
+
+  Lemma m_frag_parts :
+    t2s_fragment TP = true /\
+    forallb (fun id => match t2s_action smp (snd id) with Some a' => plain_step smp (snd id) a' | None => false end)
+            (tp_dur TP) = true.
+  Proof. unfold end_only_fragment in FR. apply andb_true_iff in FR. exact FR. Qed.
+
+  Lemma m_compiled_shape : exists acts, t2s_actions smp (tp_dur TP) = Some acts /\ same_base P P' /\
+    forall aid, lookup_action P' aid = lookupN aid (p_actions P ++ acts).
+  Proof.
+    unfold t2s_problem in CP. destruct (t2s_actions smp (tp_dur TP)) as [acts|]; [|discriminate].
+    exists acts. split; [reflexivity|]. inversion CP as [E]. split; [repeat split|]. intros aid. reflexivity.
+  Qed.
+
+  Lemma m_inst_facts aid ai a' :
+    lookup_tact TP aid = Some (TInst ai) -> lookup_action P' aid = Some a' -> a' = ai.
+  Proof.
+    intros LT LA. destruct m_compiled_shape as (acts & _ & _ & LK). rewrite LK in LA.
+    unfold lookup_tact in LT. fold P in LT. destruct (lookupN aid (p_actions P)) as [a0|] eqn:E.
+    - inversion LT; subst a0. rewrite (lookupN_app_l aid _ acts ai E) in LA. inversion LA. reflexivity.
+    - destruct (lookupN aid (tp_dur TP)); discriminate.
+  Qed.
+
+  Lemma m_action_facts aid d a' :
+    lookup_tact TP aid = Some (TDur d) -> lookup_action P' aid = Some a' ->
+    plain_step smp d a' = true /\ a_params a' = d_params d /\ conds_supported d = true.
+  Proof.
+    intros LT LA. destruct m_compiled_shape as (acts & TA & _ & LK). rewrite LK in LA.
+    destruct m_frag_parts as (A & C).
+    unfold lookup_tact in LT. fold P in LT. destruct (lookupN aid (p_actions P)) as [a0|] eqn:E; [discriminate|].
+    rewrite (lookupN_app_r aid _ acts E) in LA.
+    destruct (lookupN aid (tp_dur TP)) as [d0|] eqn:LD; [|discriminate]. inversion LT; subst d0.
+    pose proof (t2s_actions_lookup smp _ acts TA aid d a' LD LA) as T.
+    pose proof (lookupN_In _ _ _ LD) as Hin.
+    rewrite forallb_forall in C. specialize (C _ Hin). cbn [snd] in C. rewrite T in C.
+    split; [exact C|]. split; [exact (t2s_action_params smp d a' T)|].
+    unfold t2s_fragment in A. rewrite !andb_true_iff in A. destruct A as [[_ A] _].
+    rewrite forallb_forall in A. specialize (A _ Hin). cbn [snd] in A. apply andb_true_iff in A. exact (proj2 A).
+  Qed.
+
+  Lemma m_frag_empty : tp_teffs TP = [] /\ tp_tgoals TP = [] /\ p_invs P = [].
+  Proof.
+    destruct m_frag_parts as (A & _). unfold t2s_fragment in A. rewrite !andb_true_iff in A.
+    destruct A as [[[[A1 A2] A3] _] _]. fold P in A3.
+    destruct (tp_teffs TP); [|discriminate]. destruct (tp_tgoals TP); [|discriminate]. destruct (p_invs P); [|discriminate].
+    repeat split.
+  Qed.
+
+  (* what the induction carries for the suffix [tpl] of the plan, numbered from [k], starting at time [now] in the
+     temporal state [s_t], with the earlier events [H0] *)
+  Definition run_ok (k : nat) (now : Qc) (s_t : state) (tpl : tplan) (H0 : list event) (tr : trace) (s_fin : state) : Prop :=
+    run_times (ref_apply sc P) (H0 ++ Hk TP k tpl) s_t (map ev_time (Hk TP k tpl)) = Some tr /\
+    (forall st, In st tpl -> forall c, In c (step_conds TP st) -> cond_ok sc TP s_t tr c) /\
+    (forall st, In st tpl -> Temporal.step_dur_ok sc TP s_t tr st = true) /\
+    state_eq (final_state s_t tr) s_fin /\
+    asc (map ev_time (Hk TP k tpl)) /\
+    (forall x, In x (map ev_time (Hk TP k tpl)) -> now <= x) /\
+    (forall st, In st tpl -> forall c, In c (step_conds TP st) -> forall u, in_iv (tc_iv c) u -> now <= u).
+
+  (* one step with a single happening at [t] in [now, now'), put in front of a suffix that starts at [now'] *)
+  Lemma assemble k now now' t st r ev (s_t s_t1 : state) tr' H0 s_fin :
+    now <= t -> t < now' ->
+    (forall e, In e H0 -> ev_time e < now) ->
+    ev_time ev = t -> step_events TP k st = [ev] ->
+    ref_apply sc P s_t [ev] = Some s_t1 ->
+    run_ok (S k) now' s_t1 r (H0 ++ [ev]) tr' s_fin ->
+    (forall x, In x r -> now' <= ps_start x) ->
+    (forall c, In c (step_conds TP st) -> forall u, in_iv (tc_iv c) u ->
+       now <= u /\ u <= t /\ holds_in sc TP s_t (tc_bind c) (tc_expr c) = true) ->
+    (forall tr, Temporal.step_dur_ok sc TP s_t ((t, s_t1) :: tr) st = true) ->
+    run_ok k now s_t (st :: r) H0 ((t, s_t1) :: tr') s_fin.
+  Proof.
+    intros NT TN HB ET EV R1 (RT & C1 & C2 & C3 & C6 & C7 & C5) STARTS HEADIV HEADDUR.
+    assert (HK : Hk TP k (st :: r) = ev :: Hk TP (S k) r).
+    { unfold Hk. cbn [indexed_from flat_map fst snd]. rewrite EV. reflexivity. }
+    rewrite <- app_assoc in RT. cbn [app] in RT.
+    assert (KE : forall e, In e (Hk TP (S k) r) -> now' <= ev_time e).
+    { intros e Hin. apply C7. apply in_map. exact Hin. }
+    assert (EA : events_at t (H0 ++ ev :: Hk TP (S k) r) = [ev]).
+    { rewrite events_at_app. rewrite (events_at_none t H0).
+      - rewrite events_at_cons. rewrite ET.
+        assert (E : qc_eqb t t = true) by (apply qc_eqb_eq; reflexivity). rewrite E.
+        rewrite (events_at_none t (Hk TP (S k) r)); [reflexivity|].
+        intros x Hx E'. specialize (KE x Hx). rewrite E' in KE. unfold Qclt, Qcle in *. lra.
+      - intros x Hx E'. specialize (HB x Hx). rewrite E' in HB. unfold Qclt, Qcle in *. lra. }
+    unfold run_ok. rewrite HK. cbn [map]. rewrite ET.
+    split; [cbn [run_times]; rewrite EA, R1, RT; reflexivity|].
+    split; [|split; [|split; [|split; [|split]]]].
+    - intros x [<-|Hx] c Hc u Hu.
+      + destruct (HEADIV c Hc u Hu) as (_ & U2 & HH). rewrite (state_at_cons_le s_t t s_t1 tr' u U2). exact HH.
+      + pose proof (C5 x Hx c Hc u Hu) as U. rewrite (state_at_cons_lt s_t t s_t1 tr' u); [exact (C1 x Hx c Hc u Hu)|].
+        unfold Qclt, Qcle in *. lra.
+    - intros x [<-|Hx]; [apply HEADDUR|].
+      unfold Temporal.step_dur_ok. rewrite (state_at_cons_lt s_t t s_t1 tr' (ps_start x)).
+      + exact (C2 x Hx).
+      + specialize (STARTS x Hx). unfold Qclt, Qcle in *. lra.
+    - cbn [final_state]. exact C3.
+    - change (asc_from t (map ev_time (Hk TP (S k) r))). apply asc_from_of_asc; [exact C6|].
+      intros x Hx. specialize (C7 x Hx). unfold Qclt, Qcle in *. lra.
+    - intros x [<-|Hx]; [exact NT|]. specialize (C7 x Hx). unfold Qclt, Qcle in *. lra.
+    - intros x [<-|Hx] c Hc u Hu.
+      + exact (proj1 (HEADIV c Hc u Hu)).
+      + pose proof (C5 x Hx c Hc u Hu) as U. unfold Qclt, Qcle in *. lra.
+  Qed.
+
+  Lemma step_events_inst k st a :
+    lookup_tact TP (ps_act st) = Some (TInst a) ->
+    step_events TP k st = [ {| ev_time := ps_start st; ev_src := Some k;
+                               ev_bind := zip_params (a_params a) (ps_args st); ev_effs := a_effs a |} ].
+  Proof. intros LT. unfold step_events. rewrite LT. reflexivity. Qed.
+
+  Lemma m_compose_run : forall pi k now (s_s s_t : state) tpl H0 s_fin,
+    state_eq s_t s_s ->
+    back_plan sc TP P' eps now s_s pi = Some tpl ->
+    run P' (spec_step sc P') s_s pi = Some s_fin ->
+    nonempty_along sc TP P' s_s pi -> positive_durations tpl ->
+    (forall e, In e H0 -> ev_time e < now) ->
+    exists tr, run_ok k now s_t tpl H0 tr s_fin.
+  Proof.
+    induction pi as [|[aid args] rest IH]; intros k now s_s s_t tpl H0 s_fin SE BP RUN NE POS HB.
+    - cbn in BP. inversion BP; subst tpl. cbn in RUN. inversion RUN; subst s_fin.
+      exists []. unfold run_ok. split; [reflexivity|]. split; [intros st []|]. split; [intros st []|]. split; [exact SE|].
+      split; [exact I|]. split; [intros x []|intros st []].
+    - destruct (back_plan_cons _ _ _ _ _ _ _ _ _ _ BP) as (a' & s_s' & r & od & La & Sp & -> & Hr & Hkind).
+      cbn [run] in RUN. unfold lookup_action in La. unfold lookup_action in RUN. rewrite La, Sp in RUN.
+      cbn [nonempty_along] in NE. unfold lookup_action in NE. rewrite La, Sp in NE. destruct NE as [NE1 NE2].
+      assert (POSr : positive_durations r) by (intros x dx Hx; apply POS; right; exact Hx).
+      destruct m_compiled_shape as (acts0 & _ & SB & _).
+      assert (STARTS : forall now', chained_t eps now' r -> forall x, In x r -> now' <= ps_start x).
+      { intros now' CH. assert (F : Forall (fun x => zq 0 <= dur_t x) r).
+        { apply Forall_forall. intros x Hx. unfold dur_t. destruct (ps_dur x) as [dx|] eqn:E; [|apply Qcle_refl].
+          apply Qclt_le_weak. exact (POSr x dx Hx E). }
+        pose proof (chained_after eps He r now' CH F) as CA. rewrite Forall_forall in CA. exact CA. }
+      pose proof (back_plan_chained _ _ _ _ _ _ _ _ Hr) as CHr.
+      destruct od as [dt|].
+      + (* durative, one happening at the end *)
+        destruct Hkind as (d & LT & SD). rewrite LT in NE1.
+        set (st := {| ps_start := now; ps_act := aid; ps_args := args; ps_dur := Some dt |}) in *.
+        assert (Dpos : zq 0 < dt) by (apply (POS st dt); [left; reflexivity | reflexivity]).
+        destruct (m_action_facts aid d a' LT La) as (PS & EP & CS).
+        set (t := now + dt).
+        destruct (step_no_start_effects sc smp OK P P' SB d a' args s_s s_t s_s' (Some k) t PS EP SE Sp)
+          as (l & OE & CH & s_t1 & R1 & SE1).
+        set (ev := {| ev_time := t; ev_src := Some k; ev_bind := zip_params (d_params d) args; ev_effs := l |}) in *.
+        assert (EV : step_events TP k st = [ev]) by (apply (step_events_end TP k st d dt l LT eq_refl OE)).
+        assert (NT : now < t) by (apply lt_plus; exact Dpos).
+        assert (TN : t < t + eps) by (apply lt_plus; exact He).
+        assert (HB' : forall e, In e (H0 ++ [ev]) -> ev_time e < t + eps).
+        { intros e Hin. apply in_app_or in Hin. destruct Hin as [Hin|[<-|[]]].
+          - specialize (HB e Hin). unfold Qclt in *. lra.
+          - exact TN. }
+        destruct (IH (S k) (t + eps) s_s' s_t1 r (H0 ++ [ev]) s_fin SE1 Hr RUN NE2 POSr HB') as (tr' & ROK).
+        exists ((t, s_t1) :: tr').
+        apply (assemble k now (t + eps) t st r ev s_t s_t1 tr' H0 s_fin (Qclt_le_weak _ _ NT) TN HB eq_refl EV R1 ROK
+                        (STARTS _ CHr)).
+        * intros c Hc u Hu. destruct (step_conds_in TP st d dt c LT eq_refl Hc) as (ic & e & I1 & I2 & ->).
+          cbn [tc_iv tc_bind tc_expr] in *. unfold conds_supported in CS. rewrite forallb_forall in CS.
+          specialize (CS ic I1). apply andb_true_iff in CS. destruct CS as [CL CHi].
+          destruct (iv_facts now dt (fst ic) u CL CHi Dpos Hu) as (U1 & U2 & KD).
+          split; [exact U1|]. split; [exact U2|]. unfold holds_in. fold P. exact (CH ic e I1 I2 KD).
+        * intros tr. unfold Temporal.step_dur_ok. cbn [ps_act ps_dur ps_start st]. rewrite LT.
+          rewrite (state_at_cons_le s_t t s_t1 tr now); [|apply Qclt_le_weak; exact NT].
+          rewrite (dur_ok_ext sc TP s_t s_s _ d dt SE). exact (step_dur_ok sc TP s_s d args dt SD NE1).
+      + (* instantaneous, one happening at the start *)
+        destruct Hkind as (ai & LT).
+        pose proof (m_inst_facts aid ai a' LT La) as ->.
+        set (st := {| ps_start := now; ps_act := aid; ps_args := args; ps_dur := None |}) in *.
+        destruct (gen_step sc P P' SB ai args s_s s_t s_s' (Some k) now SE Sp) as (A & s_t1 & R1 & SE1).
+        set (ev := {| ev_time := now; ev_src := Some k; ev_bind := zip_params (a_params ai) args; ev_effs := a_effs ai |}) in *.
+        assert (EV : step_events TP k st = [ev]) by (apply (step_events_inst k st ai LT)).
+        assert (TN : now < now + eps) by (apply lt_plus; exact He).
+        assert (HB' : forall e, In e (H0 ++ [ev]) -> ev_time e < now + eps).
+        { intros e Hin. apply in_app_or in Hin. destruct Hin as [Hin|[<-|[]]].
+          - specialize (HB e Hin). unfold Qclt in *. lra.
+          - exact TN. }
+        destruct (IH (S k) (now + eps) s_s' s_t1 r (H0 ++ [ev]) s_fin SE1 Hr RUN NE2 POSr HB') as (tr' & ROK).
+        exists ((now, s_t1) :: tr').
+        apply (assemble k now (now + eps) now st r ev s_t s_t1 tr' H0 s_fin (Qcle_refl _) TN HB eq_refl EV R1 ROK
+                        (STARTS _ CHr)).
+        * intros c Hc u Hu. unfold step_conds in Hc. cbn [ps_act ps_start ps_args st] in Hc. rewrite LT in Hc. apply in_map_iff in Hc.
+          destruct Hc as [e [<- He']]. cbn [tc_iv tc_bind tc_expr] in *.
+          destruct Hu as [U1 U2]. cbn in U1, U2. split; [exact U1|]. split; [exact U2|].
+          unfold holds_in. fold P. unfold all_hold in A. rewrite forallb_forall in A. exact (A e He').
+        * intros tr. unfold Temporal.step_dur_ok. cbn [ps_act ps_dur st]. rewrite LT. reflexivity.
+  Qed.
+
+  Theorem plan_end_only s0 pi tpl :
+    bound_invs P = [] ->
+    valid_plan sc P' s0 pi = true ->
+    back_plan sc TP P' eps (zq 0) s0 pi = Some tpl ->
+    nonempty_along sc TP P' s0 pi -> positive_durations tpl ->
+    tt_valid sc TP s0 tpl.
+  Proof.
+    intros BI V BP NE POS.
+    unfold valid_plan in V. destruct (run P' (spec_step sc P') s0 pi) as [s_fin|] eqn:RUN; [|discriminate].
+    destruct (m_compose_run pi 0%nat (zq 0) s0 s0 tpl [] s_fin (fun f a => eq_refl) BP RUN NE POS
+                            (fun e F => match F with end))
+      as (tr & RT & C1 & C2 & C3 & C6 & _ & _).
+    destruct m_frag_empty as (E1 & E2 & E3). destruct m_compiled_shape as (acts0 & _ & SB & _).
+    assert (AE : all_events TP tpl = Hk TP 0 tpl).
+    { unfold all_events, timed_events. rewrite E1. reflexivity. }
+    assert (TS : times_of (all_events TP tpl) = map ev_time (Hk TP 0 tpl)).
+    { rewrite AE. destruct (times_of_spec (Hk TP 0 tpl)) as [T1 T2]. apply asc_unique; [exact T1 | exact C6 | exact T2]. }
+    split; [exact (back_plan_wf _ _ _ _ _ _ _ _ BP)|].
+    exists tr. rewrite TS, AE. split; [exact RT|]. split; [exact C2|]. split.
+    - intros c Hc. unfold all_conds, global_conds in Hc. rewrite E2 in Hc. fold P in Hc. rewrite E3, BI in Hc.
+      cbn in Hc. apply in_flat_map in Hc. destruct Hc as [st [H1 H2]]. exact (C1 st H1 c H2).
+    - rewrite <- V. unfold goals_hold. fold P. pose proof SB as (_ & _ & _ & SG). rewrite SG.
+      symmetry. apply all_hold_ext. apply (mk_interp_base P P' _ _ [] SB).
+      intros f a. symmetry. apply C3.
+  Qed.
+End ComposeMixed.
